@@ -40,7 +40,7 @@ META = {
 }
 
 RES = {"dup": 0, "le_lib": 1, "orphan": 2, "invalid": 3, "connected": 4, "side": 5, "veto": 6, "reorg": 7,
-       "exec_failed": 12, "reorg_failed": 13}
+       "exec_failed": 12, "reorg_failed": 13, "recovered": 14, "recover_veto": 15}
 Z = vf.coq_Z
 
 
@@ -80,6 +80,7 @@ def node_cases(sc, obs):
     per, src = {}, {}
     j = 0
     fail = bool(sc.get("fail"))
+    crash = bool(sc.get("crash"))
     for k, op in enumerate(sc["ops"]):
         if op[0] == "BAD":
             per.setdefault(0, []).append("FOpBad %s" % Z(op[1]))
@@ -94,14 +95,18 @@ def node_cases(sc, obs):
         nd = op[1]
         lst = per.setdefault(nd, [])
         src.setdefault(nd, []).append((k, o))
-        if op[0] == "D":
+        if op[0] == "K":
+            b = blocks[op[2]]
+            lst.append("COpK (mkBlk %s %s %s %s %s) %s %s" % (Z(b[0]), Z(b[1]), Z(b[2]), Z(b[3]), Z(b[4]), Z(op[3]),
+                                                             Z(obs_hash(RES[o["res"]], o))))
+        elif op[0] == "D":
             b = blocks[op[2]]
             lst.append("%s (mkBlk %s %s %s %s %s) %s" % ("FOpD" if fail else "OpD",
                 Z(b[0]), Z(b[1]), Z(b[2]), Z(b[3]), Z(b[4]), Z(obs_hash(RES[o["res"]], o))))
         elif op[0] == "R":
-            lst.append("%s %s" % ("FOpR" if fail else "OpR", Z(obs_hash(CODE_R, o))))
+            lst.append("%s %s" % ("COpR" if crash else "FOpR" if fail else "OpR", Z(obs_hash(CODE_R, o))))
         elif op[0] == "S":
-            lst.append("%s %s" % ("FOpS" if fail else "OpS", Z(obs_hash(CODE_R, o))))
+            lst.append("%s %s" % ("COpS" if crash else "FOpS" if fail else "OpS", Z(obs_hash(CODE_R, o))))
         elif op[0] == "G":
             lst.append("OpG [%s] %s" % (";".join(Z(x) for x in op[2]), Z(obs_hash(CODE_G, o))))
         elif op[0] == "F":
@@ -174,9 +179,14 @@ def direct_predicates(sc, obs, stats):
             if op[0] == "R":
                 prev[nd] = o
             continue
-        # delivery
+        # delivery ("K": delivery with a crash inside the reorganisation and recovery)
         b = blocks[op[2]]
         stats["deliveries"] += 1
+        if o["res"] == "recover_veto":
+            fails.append(("C08:recovery-vetoed-by-saved-lib",
+                          "crash at stop point %s of a reorganisation with fork point %d: the recovery is vetoed by the LIB %d "
+                          "saved with the swapped chain; the node keeps the old chain with a LIB of the new branch"
+                          % (op[3] if len(op) > 3 else "?", o["root_no"], st["lib_no"]), {"op_index": k}))
         stats["res_" + o["res"]] = stats.get("res_" + o["res"], 0) + 1
         if p is None:
             pmain, plib_no, pst = [0], 0, None
@@ -249,12 +259,12 @@ def direct_predicates(sc, obs, stats):
     for kk, op in enumerate(sc["ops"]):
         if op[0] in ("B", "T", "BAD"):
             continue
-        if obs[jj]["res"] == "reorg_failed" and first is None:
-            first = kk
+        if obs[jj]["res"] in ("reorg_failed", "recover_veto") and first is None:
+            first = (kk, "C08:lib-off-main-chain-after-failed-reorg" if obs[jj]["res"] == "reorg_failed"
+                     else "C08:recovery-vetoed-by-saved-lib")
         jj += 1
     if first is not None:
-        fails = [(("C08:lib-off-main-chain-after-failed-reorg" if d.get("op_index", -1) >= first else key), what, d)
-                 for key, what, d in fails]
+        fails = [((first[1] if d.get("op_index", -1) >= first[0] else key), what, d) for key, what, d in fails]
     return fails
 
 
@@ -554,7 +564,7 @@ def run(ctx):
     import time
     T = {}
     t0 = time.time()
-    pr = ctx.prove(extra_targets=["Dpos/LibFail.vo", "Dpos/Election.vo"])   # models used by the case files
+    pr = ctx.prove(extra_targets=["Dpos/LibFail.vo", "Dpos/LibCrash.vo", "Dpos/Election.vo"])   # models used by the case files
     T['prove'] = round(time.time() - t0, 1)
     t0 = time.time()
     quick = ctx.tier == "quick"
@@ -596,6 +606,7 @@ def run(ctx):
     disagreements = []
     cases, case_src = [], []
     fcases, fcase_src = [], []
+    ccases, ccase_src = [], []
     shapes = set()
     for sc, ob in zip(scen, obs):
         fails = direct_predicates(sc, ob, stats)
@@ -612,7 +623,10 @@ def run(ctx):
                 if dis:
                     disagreements.append((sc, dis))
         for nd, term, src in node_cases(sc, ob):
-            if sc.get("fail"):
+            if sc.get("crash"):
+                ccases.append(term)
+                ccase_src.append((sc, nd, src))
+            elif sc.get("fail"):
                 fcases.append(term)
                 fcase_src.append((sc, nd, src))
             else:
@@ -702,6 +716,16 @@ def run(ctx):
                                       "|confirms|, (id, no, bp, range, left)*, |main|, ids*"})
         corr_broken = ("model/implementation differ on %d of %d node histories" % (len(bad), len(cases)), det)
 
+    cbad, cout = model_eval(ctx, "c08_crash_cases", ccases, typ="(Z*Z) * list cop", fn="cscenario_first_diff",
+                            imp="Dpos.Lib Dpos.LibCrash")
+    if cbad is None:
+        corr_broken = corr_broken or ("C08 crash-recovery correspondence could not be evaluated", cout[-2000:])
+    elif cbad and not corr_broken:
+        ci = sorted(cbad, key=lambda c: len(ccase_src[c][0]["ops"]))[0]
+        sc, nd, src = ccase_src[ci]
+        k, o = src[min(cbad[ci], len(src) - 1)]
+        corr_broken = ("crash-recovery model/implementation differ on %d of %d histories" % (len(cbad), len(ccases)),
+                       [{"scenario": sc, "op_index": k, "implementation_obs": flat_obs(RES.get(o["res"], CODE_R), o)}])
     if fbad is None:
         corr_broken = corr_broken or ("C08 failure-path correspondence could not be evaluated", fout[-2000:])
     elif fbad and not corr_broken:
